@@ -139,6 +139,59 @@ func certAcceptorRules(p *engine.Prog, r *engine.Report, rule string) {
 		arg := engine.Params(a)[0]
 		same := approvedArg != nil && engine.PathOf(arg) == engine.PathOf(approvedArg)
 		rec := sliceCallOn(arg, nil, "blockchain/types.Vote.VoterAddr")
+		if !rec {
+			// through a same-package helper: every address it returns is recovered from the vote it
+			// was given (VoterAddr on a parameter-derived vote) or is the zero value of a refusal
+			for x := range engine.BackSlice(arg, engine.DefaultSlice) {
+				hc, isCall := x.(*ssa.Call)
+				if !isCall {
+					continue
+				}
+				h := hc.Common().StaticCallee()
+				if h == nil || h.Blocks == nil || h.Pkg != f.Pkg {
+					continue
+				}
+				all, some := true, false
+				for _, ret := range engine.Returns(h) {
+					if len(ret.Results) == 0 {
+						all = false
+						continue
+					}
+					res := ret.Results[0]
+					onParam := false
+					for y := range engine.BackSlice(res, engine.DefaultSlice) {
+						if vc, isVC := y.(*ssa.Call); isVC && engine.CallIs(vc, "blockchain/types.Vote.VoterAddr") {
+							o := engine.Origin(rootOf(engine.CallArgs(vc)[0]))
+							for _, prm := range h.Params {
+								if o == ssa.Value(prm) {
+									onParam = true
+								}
+							}
+						}
+					}
+					if onParam {
+						some = true
+						continue
+					}
+					// zero value: a fresh local never stored to, or a nil/zero constant
+					isZero := false
+					switch z := engine.Unwrap(res).(type) {
+					case *ssa.Const:
+						isZero = true
+					case *ssa.UnOp:
+						if a, isA := z.X.(*ssa.Alloc); isA && len(engine.StoresTo(a)) == 0 {
+							isZero = true
+						}
+					}
+					if !isZero {
+						all = false
+					}
+				}
+				if all && some {
+					rec = true
+				}
+			}
+		}
 		r.Check(same && rec, rule, "ValidateBlockCert|counted key = recovered signer checked by Approved", p.InstrPos(a), "voters.Add(addr) with addr from vote.VoterAddr(), same addr as Approved(addr)", "the counted key is not the recovered signer address that Approved() checked")
 	}
 	// quorum
